@@ -307,6 +307,10 @@ def gen_history(rnd, n_obs, length, hid0):
                     op = "ADDER"
                 ev = {"ev": "opwrite", "n": out, "op": op, "args": [a, b]}
                 call = lambda: t.operate(getattr(Operator, op), a, b, out)
+                if a in names and rnd.random() < 0.25:
+                    # no output name: documented default is the FIRST operand (seed C01-binary-default-output-second-operand)
+                    ev = {"ev": "opwrite", "n": a, "op": op, "args": [a, b]}
+                    call = lambda: t.operate(getattr(Operator, op), a, b)
             else:
                 op = rnd.choice(S_VOID)
                 arg = rnd.choice([1, 2, 0.5, 3])
